@@ -31,7 +31,7 @@ def base_poly(interp, v):
     ek = getattr(v.content, "elem_kind", None)
     if not isinstance(ek, (T_IntT, T_RealT)):
         raise Unsupported(f"not a numeric vector: {v!r}")
-    bid = getattr(v, "vec_name", None) or f"v{len(ctx.vec_bases)}"
+    bid = getattr(v, "vec_name", None) or getattr(v, "sid", None) or f"v{len(ctx.vec_bases)}"
     ctx.vec_bases[bid] = v
     v.vec_name = bid
     v.poly = {((bid, 1),): z3.IntVal(1)}
@@ -167,7 +167,7 @@ def vec_sum(interp, v):
 
 def _as_poly(interp, x):
     if isinstance(x, VList):
-        if x.kind != "ndarray":
+        if x.kind != "ndarray" and not interp.spec_mode:
             return None
         if not isinstance(x.content, SymSeq):
             return None
@@ -181,7 +181,8 @@ def _as_poly(interp, x):
 
 
 def vec_binop(interp, opn, a, b, node):
-    if not ((isinstance(a, VList) and a.kind == "ndarray") or (isinstance(b, VList) and b.kind == "ndarray")):
+    if not ((isinstance(a, VList) and (a.kind == "ndarray" or interp.spec_mode)) or
+            (isinstance(b, VList) and (b.kind == "ndarray" or interp.spec_mode))):
         return None
     pa, pb = _as_poly(interp, a), _as_poly(interp, b)
     if pa is None or pb is None:
